@@ -196,6 +196,11 @@ class Union():
             label = np.argmin(np.bincount(labels))
             labels[np.argsort(-p[:, label])[:self.n_points_min]] = label
 
+        # The re-assignment can leave the other cluster with too few points.
+        if not np.all(np.bincount(labels, minlength=2) >= self.n_points_min):
+            self.block[index] = True
+            return self.split(allow_overlap=allow_overlap)
+
         new_bounds = []
         points = self.points_bounds[index]
         for label in [0, 1]:
